@@ -389,6 +389,8 @@ impl<T: Tier> Cfg<T> for M3P3 {
         let mut g = vec![rot * T::q(-3, 2), shear, Matrix3::from_diagonal(mk_v3([T::int(2), T::int(-1), T::q(1, 2)])), sing, rot];
         if float {
             g.push(Matrix3::from_value(T::q(1, 1 << 20)));
+            // singular whatever the rounding: a zero line (the other singular generator is "numerically zero, not judged" there)
+            g.push(Matrix3::from_diagonal(mk_v3([T::int(2), T::int(0), T::q(-1, 2)])));
         }
         g
     }
@@ -697,7 +699,16 @@ fn system<T: Tier, C: Cfg<T>>(rep: &mut Report) {
             let (kind, gi) = (act / ng, act % ng);
             if act == 4 * ng {
                 // inverse (laws are checked by the invariant on the successor and on this state)
-                return C::inv(s).map(|i| {
+                // float tiers: the "inverse" of a matrix whose determinant is zero as far as floating point can tell is
+                // whatever two roundings leave (huge, infinite or NaN entries): not a state of the search
+                if !T::EXACT && C::scale(s).is_none() {
+                    let md = model::mdet(hs);
+                    if md.approx().abs() <= T::tol(md, slack_of::<T, C>(&[s])) {
+                        ctx.skip("inverse of a numerically singular matrix");
+                        return None;
+                    }
+                }
+                return C::inv(s).filter(|i| C::comps(i).iter().all(|x| x.f().abs() < 1e9)).map(|i| {
                     ctx.t();
                     mk(i)
                 });
